@@ -957,6 +957,12 @@ def _uf(name, arg):
 
 def _pow_uf(base, expo):
     ctx = Ctx.cur
+    bc = base.concrete()
+    if bc is not None and bc == 1:
+        return R(1)
+    ec = expo.concrete() if isinstance(expo, R) else None
+    if ec is not None and ec == 0:
+        return R(1)
     key = ("POW", _key(base), _key(expo))
     g = ctx.memo.get(key)
     if g is None:
